@@ -24,6 +24,15 @@ def run(tier):
         v = tlc_validate("Trace_Tokenizer", "Trace_Tokenizer.cfg", trace, wd, shards=12, boundary=("tok",), timeout=6000)
         c.add_validation(v, cases_path=cases, behaviours=mc["replays"], boundary=("tok",))
         os.remove(trace)
+    # token TYPES, tag names and raw texts on the lexeme-structured documents of the body-filter specifications
+    cases = os.path.join(wd, "docs.cases.ndjson")
+    mc = tlc_mc("MC_Body", "MC_Body_docs.cfg", wd, workers=4, cases_out=cases, coverage=False)
+    c.add_mc(mc)
+    trace = os.path.join(wd, "docs.trace.ndjson")
+    run_harness("toklex", cases, trace)
+    v = tlc_validate("Trace_Body", "Trace_Body.cfg", trace, wd, shards=1, boundary=("lex",))
+    c.add_validation(v, cases_path=cases, behaviours=mc["replays"], boundary=("lex",))
+    c.extra["lexeme_documents_with_token_types_checked"] = mc["replays"]
     # seeded random longer inputs: markup alphabet and arbitrary bytes
     n = 2000 if tier == "quick" else 25000
     cases = os.path.join(wd, "random.cases.ndjson")
@@ -39,7 +48,7 @@ def run(tier):
     c.extra["random_inputs"] = v["events"]
     c.assumptions = ["exhaustive inputs: all strings up to length 4 (quick) / 5 (thorough) over a 16-symbol markup alphabet, up to 6 over two "
                      "10/11-symbol alphabets that can spell raw-text elements; random inputs seeded by VERIF_SEED",
-                     "token TYPES are not judged here (only on the lexeme-structured documents of the body-filter checks)"]
+                     "token TYPES, tag names and raw texts are judged against the specification's Scan on the 26 lexeme-structured documents of BodyCases.tla only"]
     return c.finish(explanation="Tokenizer.tla is the abstract machine of a lossless, total tokenizer (contiguity, progress, sticky error, "
                                 "raw spans + remainder = input, at most one token per byte). TLC checks TokenBound/Lossless on the machine and enumerates "
                                 "the inputs; the harness runs the real tokenizer (public API, helper thread with a timeout so a hang is data) and records "
